@@ -60,15 +60,9 @@ def rule_names(res):
 
 
 WHY_MISSED = {
-    "C03_2": "iterative reweighting weights: descent is an analytic majorisation argument, no structural clause (§4 C03)",
-    "C04_1": "shortcut inside BST before the positive branch: block prox not lifted (§4 C04/C07)",
-    "C06_2": "inside Cox's risk-set recursion, an opaque operator of the algebra (§4 C06)",
-    "C07_1": "prox_log_sum closed form: global optimality of closed forms not claimed (§4 C07)",
-    "C07_3": "clip-after-shrink in a block prox: block prox not lifted (§4 C07)",
-    "C08_2": "block score under positivity: block scores not lifted (§4 C08)",
-    "C09_1": "power-method start vector: numerical accuracy of an iteration (§4 C09)",
+    "C07_1": "prox_log_sum closed form: global optimality among stationary points is not claimed (§4 C07)",
     "C12_2": "neutralised by fix 712696b (the patched tree no longer misbehaves; kept for the record)",
-    "C12_3": "softmax normalisation: numeric (§4 C12)",
+    "C12_3": "softmax shifted by the global maximum: exp underflow, numeric (§4 C12)",
 }
 
 
